@@ -176,8 +176,14 @@ def main():
         pre = ''
         if k % 3 == 2 and n is not None and x is not None:
             # options given twice, e.g. overrides appended to a default argument string
-            pre = rng.choice(['-n %d ' % rng.choice([1, 30]), '-x %d ' % rng.choice([1, 7]), '-n %d -x %d ' % (rng.choice([1, 30]), rng.choice([1, 7]))])
-            ignore = rng.choice([1, -1, -2, emitted - 1, -(emitted - 1)])
+            # (chosen so that reading the FIRST occurrence instead of the last one must show: either the largest
+            #  legal ignore_first_parses becomes "too many", or "keep the last parse" ignores every parse)
+            if (k // 3) % 2 == 0:
+                n, x = max(n, 4), min(x, 2)
+                emitted = len(range(0, n, x)) + 1
+                pre, ignore = rng.choice(['-n 1 ', '-x 7 -n 1 ']), emitted - 1
+            else:
+                pre, ignore = rng.choice(['-n 30 -x 1 ', '-n 40 ']), rng.choice([-1, -2])
         res, runs, left, args = run_case(ck, bindir_real, text_units, train_units, n, x, seed, nruns, njobs, ignore, None, 'Colloc0', 'colloc0', pre)
         desc = {'text': gens.lines(text_units), 'train': None if train_units is None else gens.lines(train_units), 'args': args,
                 'nruns': nruns, 'njobs': njobs, 'ignore_first_parses': ignore, 'family': 'colloc0-%s' % ['self', 'same', 'disjoint'][mode]}
